@@ -490,3 +490,89 @@ Proof. intros H. apply max_value_bitmap_len_trap_iff; unfold u16 in H; lia. Qed.
 
 Lemma no_trap_checksum l : compute_checksum l <> None.
 Proof. discriminate. Qed.
+
+(* ================= round 2 kernels ================= *)
+Lemma no_trap_op_add a b : op_add a b <> None. Proof. discriminate. Qed.
+Lemma no_trap_op_sub a b : op_sub a b <> None. Proof. discriminate. Qed.
+Lemma no_trap_op_abs a : op_abs a <> None. Proof. discriminate. Qed.
+Lemma no_trap_op_neg a : op_neg a <> None. Proof. discriminate. Qed.
+Lemma no_trap_op_max_min a b : op_max a b <> None /\ op_min a b <> None. Proof. split; discriminate. Qed.
+Lemma no_trap_op_floor_ceiling a : op_floor a <> None /\ op_ceiling a <> None.
+Proof. split; [apply no_trap_floor|apply no_trap_ceil]. Qed.
+Lemma no_trap_op_mul a b : op_mul a b <> None.
+Proof. unfold op_mul, m_mul_div. rewrite no_trap_mul_div_any. discriminate. Qed.
+Lemma no_trap_op_div a b : i32 a -> i32 b -> op_div a b <> None.
+Proof.
+  intros Ha Hb. unfold op_div. destruct (b =? 0); [discriminate|].
+  destruct (m_mul_div_no_round a 64 b) eqn:E; [cbn [obind]; discriminate|].
+  exfalso. apply (no_trap_mul_div_no_round a 64 b); try assumption. unfold i32; lia.
+Qed.
+(* in-range operands give the exact wrapped sum / the truncated quotient *)
+Lemma op_add_value a b : i32 (a + b) -> op_add a b = Some (a + b).
+Proof. intros H. unfold op_add. rewrite wrap_s32_id by assumption. reflexivity. Qed.
+
+Lemma no_trap_op_wcvtf v scale : i32 v -> i32 scale -> op_wcvtf v scale <> None.
+Proof. intros Hv Hs. unfold op_wcvtf. rewrite no_trap_mul by assumption. discriminate. Qed.
+
+Lemma no_trap_compute_scale ppem upem : 0 <= ppem <= 33554431 -> u16 upem -> compute_scale ppem upem <> None.
+Proof.
+  intros Hp Hu. unfold compute_scale. unfold u16 in Hu. rewrite no_trap_div by (unfold i32; lia). discriminate.
+Qed.
+
+Lemma to_f26dot6_range x : -2097152 <= fixed_to_f26dot6 x <= 2097151.
+Proof.
+  unfold fixed_to_f26dot6. pose proof (wrap_s32_range (x + 512)) as H. unfold i32 in H.
+  rewrite Z.shiftr_div_pow2 by lia. change (2 ^ 10) with 1024. lia.
+Qed.
+Lemma no_trap_cvt_load base : i16 base -> cvt_load base = Some (base * 64).
+Proof. intros H. unfold cvt_load, mul32. apply chk_s32_some. unfold i16, i32 in *. lia. Qed.
+Lemma no_trap_cvt_load_cvar base delta : i16 base -> cvt_load_cvar base delta <> None.
+Proof.
+  intros H. unfold cvt_load_cvar. fold (cvt_load base). rewrite no_trap_cvt_load by assumption. cbn [obind].
+  pose proof (to_f26dot6_range delta). unfold add32. rewrite chk_s32_some; [discriminate|].
+  unfold i16, i32 in *. lia.
+Qed.
+Lemma shiftr6_range s : i32 s -> i32 (Z.shiftr s 6).
+Proof. intros H. unfold i32 in *. rewrite Z.shiftr_div_pow2 by lia. change (2 ^ 6) with 64. lia. Qed.
+Lemma no_trap_cvt_scale v scale : i32 v -> i32 scale -> cvt_scale v scale <> None.
+Proof.
+  intros Hv Hs. unfold cvt_scale. rewrite no_trap_mul; [discriminate|assumption|apply shiftr6_range; assumption].
+Qed.
+
+Lemma no_trap_assign bits a b : fx_add_assign bits a b <> None /\ fx_sub_assign bits a b <> None.
+Proof. split; discriminate. Qed.
+
+Lemma no_trap_phantom_points xmin ymax lsb adv ascent descent :
+  i16 xmin -> i16 ymax -> i16 lsb -> u16 adv -> i16 ascent -> i16 descent ->
+  phantom_points xmin ymax lsb adv ascent descent <> None.
+Proof.
+  intros H1 H2 H3 H4 H5 H6. unfold phantom_points, sub32, add32. unfold i16, u16 in *.
+  rewrite (chk_s32_some (ascent - ymax)) by (unfold i32; lia). cbn [obind].
+  rewrite (chk_s32_some (ascent - descent)) by (unfold i32; lia). cbn [obind].
+  rewrite (chk_s32_some (xmin - lsb)) by (unfold i32; lia). cbn [obind].
+  rewrite chk_s32_some by (unfold i32; lia). cbn [obind]. discriminate.
+Qed.
+
+Lemma fx_sub32_range a b : i32 (fx_sub 32 a b).
+Proof. unfold fx_sub. apply wrap_s32_range. Qed.
+Lemma fixed_from_i32_range i : i32 (fixed_from_i32 i).
+Proof. unfold fixed_from_i32. apply wrap_s32_range. Qed.
+Lemma no_trap_delta_interp in1c in2c out1 out2 pc cur : delta_interp in1c in2c out1 out2 pc cur <> None.
+Proof.
+  unfold delta_interp. cbv zeta.
+  destruct (negb (fixed_from_i32 in1c =? fixed_from_i32 in2c) || (out1 =? out2)); [|discriminate].
+  assert (Hs : exists sc, i32 sc /\
+    (if negb (fixed_from_i32 in1c =? fixed_from_i32 in2c)
+     then fixed_div_chk (fx_sub 32 out2 out1) (fx_sub 32 (fixed_from_i32 in2c) (fixed_from_i32 in1c))
+     else Some 0) = Some sc).
+  { destruct (negb _).
+    - eexists. split; [|apply no_trap_div; apply fx_sub32_range].
+      unfold fixed_div. cbv zeta. destruct (_ <? 0); apply wrap_s32_range.
+    - exists 0. split; [unfold i32; lia|reflexivity]. }
+  destruct Hs as [sc [Hsc Es]]. rewrite Es. cbn [obind].
+  destruct (_ <=? _); [discriminate|]. destruct (_ <=? _); [discriminate|].
+  fold (m_mul (fx_sub 32 (fixed_from_i32 pc) (fixed_from_i32 in1c)) sc).
+  rewrite no_trap_mul by (try apply fx_sub32_range; assumption). cbn [obind]. discriminate.
+Qed.
+Lemma no_trap_delta_shift r o c : delta_shift r o c <> None.
+Proof. discriminate. Qed.
